@@ -273,7 +273,7 @@ func execRelationalExprLessThan(context *exprContext, expr *grammar.Grammar) err
 	if leftNodeSetOk && rightNodeSetOk {
 		for _, leftNode := range leftNodeSet {
 			for _, rightNode := range rightNodeSet {
-				if GetCursorString(leftNode) < GetCursorString(rightNode) {
+				if getStringNumber(GetCursorString(leftNode)) < getStringNumber(GetCursorString(rightNode)) {
 					context.result = Bool(true)
 					return nil
 				}
@@ -316,7 +316,7 @@ func execRelationalExprLessThan(context *exprContext, expr *grammar.Grammar) err
 
 	if leftStringOk && rightNodeSetOk {
 		for _, rightNode := range rightNodeSet {
-			if leftString < String(GetCursorString(rightNode)) {
+			if leftString.Number() < getStringNumber(GetCursorString(rightNode)) {
 				context.result = Bool(true)
 				return nil
 			}
@@ -330,7 +330,7 @@ func execRelationalExprLessThan(context *exprContext, expr *grammar.Grammar) err
 
 	if leftNodeSetOk && rightStringOk {
 		for _, leftNode := range leftNodeSet {
-			if String(GetCursorString(leftNode)) < rightString {
+			if getStringNumber(GetCursorString(leftNode)) < rightString.Number() {
 				context.result = Bool(true)
 				return nil
 			}
@@ -340,6 +340,7 @@ func execRelationalExprLessThan(context *exprContext, expr *grammar.Grammar) err
 		return nil
 	}
 
+	left, right = nodeSetToBoolIfOtherIsBool(left, right)
 	context.result = Bool(left.Number() < right.Number())
 	return nil
 }
@@ -357,7 +358,7 @@ func execRelationalExprLessThanOrEqual(context *exprContext, expr *grammar.Gramm
 	if leftNodeSetOk && rightNodeSetOk {
 		for _, leftNode := range leftNodeSet {
 			for _, rightNode := range rightNodeSet {
-				if GetCursorString(leftNode) <= GetCursorString(rightNode) {
+				if getStringNumber(GetCursorString(leftNode)) <= getStringNumber(GetCursorString(rightNode)) {
 					context.result = Bool(true)
 					return nil
 				}
@@ -400,7 +401,7 @@ func execRelationalExprLessThanOrEqual(context *exprContext, expr *grammar.Gramm
 
 	if leftStringOk && rightNodeSetOk {
 		for _, rightNode := range rightNodeSet {
-			if leftString <= String(GetCursorString(rightNode)) {
+			if leftString.Number() <= getStringNumber(GetCursorString(rightNode)) {
 				context.result = Bool(true)
 				return nil
 			}
@@ -414,7 +415,7 @@ func execRelationalExprLessThanOrEqual(context *exprContext, expr *grammar.Gramm
 
 	if leftNodeSetOk && rightStringOk {
 		for _, leftNode := range leftNodeSet {
-			if String(GetCursorString(leftNode)) <= rightString {
+			if getStringNumber(GetCursorString(leftNode)) <= rightString.Number() {
 				context.result = Bool(true)
 				return nil
 			}
@@ -424,6 +425,7 @@ func execRelationalExprLessThanOrEqual(context *exprContext, expr *grammar.Gramm
 		return nil
 	}
 
+	left, right = nodeSetToBoolIfOtherIsBool(left, right)
 	context.result = Bool(left.Number() <= right.Number())
 	return nil
 }
@@ -441,7 +443,7 @@ func execRelationalExprGreaterThan(context *exprContext, expr *grammar.Grammar) 
 	if leftNodeSetOk && rightNodeSetOk {
 		for _, leftNode := range leftNodeSet {
 			for _, rightNode := range rightNodeSet {
-				if GetCursorString(leftNode) > GetCursorString(rightNode) {
+				if getStringNumber(GetCursorString(leftNode)) > getStringNumber(GetCursorString(rightNode)) {
 					context.result = Bool(true)
 					return nil
 				}
@@ -484,7 +486,7 @@ func execRelationalExprGreaterThan(context *exprContext, expr *grammar.Grammar) 
 
 	if leftStringOk && rightNodeSetOk {
 		for _, rightNode := range rightNodeSet {
-			if leftString > String(GetCursorString(rightNode)) {
+			if leftString.Number() > getStringNumber(GetCursorString(rightNode)) {
 				context.result = Bool(true)
 				return nil
 			}
@@ -498,7 +500,7 @@ func execRelationalExprGreaterThan(context *exprContext, expr *grammar.Grammar) 
 
 	if leftNodeSetOk && rightStringOk {
 		for _, leftNode := range leftNodeSet {
-			if String(GetCursorString(leftNode)) > rightString {
+			if getStringNumber(GetCursorString(leftNode)) > rightString.Number() {
 				context.result = Bool(true)
 				return nil
 			}
@@ -508,6 +510,7 @@ func execRelationalExprGreaterThan(context *exprContext, expr *grammar.Grammar) 
 		return nil
 	}
 
+	left, right = nodeSetToBoolIfOtherIsBool(left, right)
 	context.result = Bool(left.Number() > right.Number())
 	return nil
 }
@@ -525,7 +528,7 @@ func execRelationalExprGreaterThanOrEqual(context *exprContext, expr *grammar.Gr
 	if leftNodeSetOk && rightNodeSetOk {
 		for _, leftNode := range leftNodeSet {
 			for _, rightNode := range rightNodeSet {
-				if GetCursorString(leftNode) >= GetCursorString(rightNode) {
+				if getStringNumber(GetCursorString(leftNode)) >= getStringNumber(GetCursorString(rightNode)) {
 					context.result = Bool(true)
 					return nil
 				}
@@ -568,7 +571,7 @@ func execRelationalExprGreaterThanOrEqual(context *exprContext, expr *grammar.Gr
 
 	if leftStringOk && rightNodeSetOk {
 		for _, rightNode := range rightNodeSet {
-			if leftString >= String(GetCursorString(rightNode)) {
+			if leftString.Number() >= getStringNumber(GetCursorString(rightNode)) {
 				context.result = Bool(true)
 				return nil
 			}
@@ -582,7 +585,7 @@ func execRelationalExprGreaterThanOrEqual(context *exprContext, expr *grammar.Gr
 
 	if leftNodeSetOk && rightStringOk {
 		for _, leftNode := range leftNodeSet {
-			if String(GetCursorString(leftNode)) >= rightString {
+			if getStringNumber(GetCursorString(leftNode)) >= rightString.Number() {
 				context.result = Bool(true)
 				return nil
 			}
@@ -592,6 +595,24 @@ func execRelationalExprGreaterThanOrEqual(context *exprContext, expr *grammar.Gr
 		return nil
 	}
 
+	left, right = nodeSetToBoolIfOtherIsBool(left, right)
 	context.result = Bool(left.Number() >= right.Number())
 	return nil
+}
+
+// nodeSetToBoolIfOtherIsBool implements the XPath 1.0 rule that a node-set
+// compared with a boolean is first converted with the boolean function.
+func nodeSetToBoolIfOtherIsBool(left, right Result) (Result, Result) {
+	_, leftBool := left.(Bool)
+	_, rightBool := right.(Bool)
+
+	if nodeSet, ok := right.(NodeSet); ok && leftBool {
+		right = Bool(nodeSet.Bool())
+	}
+
+	if nodeSet, ok := left.(NodeSet); ok && rightBool {
+		left = Bool(nodeSet.Bool())
+	}
+
+	return left, right
 }
